@@ -189,7 +189,7 @@ func Hex(b []byte) string {
 	if len(b) == 0 {
 		return "[]"
 	}
-	return "(hex \"" + hex.EncodeToString(b) + "\")"
+	return "(hex \"" + hex.EncodeToString(b) + "\"%string)"
 }
 
 // Str renders a Go string as a Coq string literal (ASCII printable only; others via hex).
